@@ -4,6 +4,7 @@ import (
 	"bytes"
 	"context"
 	"fmt"
+	"runtime/debug"
 	"sort"
 	"strconv"
 	"strings"
@@ -374,12 +375,12 @@ func (r *Runner) syncDiscards() bool {
 	return false
 }
 
-func (r *Runner) get(obj int) {
+func (r *Runner) get(obj int, mode string) {
 	id := r.nextOp
 	r.nextOp++
 	writesBefore, newsBefore, discardsBefore := r.devWrites(), r.st.Alloc.News.Load(), r.discards.total()
 	stored := r.hier() && r.storedUnderPrefix(obj)
-	kind, data := consume(r.st.BA.Get(context.Background(), r.Digest(obj)))
+	kind, data := consumeMode(r.st.BA.Get(context.Background(), r.Digest(obj)), mode, int(r.Digest(obj).GetSizeBytes()))
 	if stored && kind == "not-found" {
 		r.oracle("C10", "an object stored under a component-wise prefix of the reader's instance name was not found",
 			fmt.Sprintf("Get of object %d (instance %q)", obj, r.objs[obj].Instance))
@@ -387,6 +388,9 @@ func (r *Runner) get(obj int) {
 	// evaluated with the block count *after* the call: blocks the call itself allocated count against the guarantee
 	must := r.mustSurvive(obj)
 	impl := kind
+	if kind == "abandoned" {
+		impl = "-"
+	}
 	if kind == "data" {
 		impl = "data " + bytesLine(data)
 		if len(data) == 0 {
@@ -440,7 +444,7 @@ func (r *Runner) get(obj int) {
 
 // cmp records a disagreement between a model reply and the implementation's observable result.
 func (r *Runner) cmp(model, impl, ctx string) {
-	if r.model == nil || model == impl {
+	if r.model == nil || model == impl || impl == "-" {
 		return
 	}
 	r.m("# "+ctx+" result", impl+" (model: "+model+")")
@@ -704,7 +708,7 @@ func (r *Runner) drainComposites() {
 }
 
 // RunCase runs a script: "#cfg ..." line, "obj <size> <instance> [alias <j>|parent <c1,c2,..>]" declarations, then operations.
-func RunCase(model *hx.Model, dr *discardReader, name string, script []string) *Runner {
+func RunCase(model *hx.Model, dr *discardReader, name string, script []string) (res *Runner) {
 	cfg, ok := ParseConfig(script[0])
 	r := &Runner{model: model, ev: make(chan event), pending: map[int]*pendingOp{}, name: name, script: script,
 		uploads: map[string]map[string]bool{}, acVersions: map[int]map[string]bool{}, touched: map[int]int64{}, touchedClean: map[int]bool{}, hidden: map[int]bool{}, discards: dr, nextOp: 1000}
@@ -716,7 +720,8 @@ func RunCase(model *hx.Model, dr *discardReader, name string, script []string) *
 	r.m(cfg.InitLine(), "ok")
 	defer func() {
 		if p := recover(); p != nil {
-			r.oracle("C01", "the store panicked", fmt.Sprint(p))
+			r.oracle("C01", "the store panicked", fmt.Sprintf("%v\n%s", p, debug.Stack()))
+			res = r
 		}
 	}()
 	for _, line := range script[1:] {
@@ -766,7 +771,14 @@ func RunCase(model *hx.Model, dr *discardReader, name string, script []string) *
 			}
 		case "get":
 			if okObj(n(1)) {
-				r.get(n(1))
+				mode := "s"
+				if len(w) > 2 {
+					mode = w[2]
+				}
+				if r.st.Cfg.Kind == "ac" {
+					mode = "s" // action results are protos: ToProto/ToByteSlice
+				}
+				r.get(n(1), mode)
 			}
 		case "fm":
 			var os []int
